@@ -425,7 +425,7 @@ func fkGenTree(r *Rng, n int, mode string, first uint64, wild bool) *fkTree {
 	libID := newID()
 	t.lib = fkRef{libID, base}
 	// a LIB that never moves: every block declares the starting LIB (the class of c01_fixed_lib_partial)
-	frozen := mode == "excl" && !wild && r.Chance(15)
+	frozen := (mode == "excl" || mode == "incl") && !wild && r.Chance(15)
 	var root fkBlock
 	switch mode {
 	case "excl", "incl":
